@@ -980,6 +980,11 @@ func TestVerifC18API(t *testing.T) {
 			}
 			rt.Skip("abandoned: " + strings.SplitN(msg, "\n", 2)[0])
 		}
+		// self-test of the plumbing above: VF_C18_SELFTEST_ABANDON=n pretends that a deadline struck
+		// in every n-th case (never set by the driver)
+		if n, _ := strconv.Atoi(os.Getenv("VF_C18_SELFTEST_ABANDON")); n > 0 && casesStarted%n == 0 {
+			inconclusive("self-test: context deadline exceeded")
+		}
 		var clock int64
 
 		// ---- reset the store, seed it sequentially through the API
